@@ -1490,3 +1490,100 @@ def m_enum_from_primitive(ex, a, callee, canon):
         if d == cv:
             return some(Enum(en, name, d))
     return NONE()
+
+
+# ------------------------------------------------------------------ small std helpers (robustness against harmless refactors)
+def _slot(p):
+    while isinstance(p.get(), Ptr):
+        p = p.get()
+    return p
+
+
+@model(r"^(std|core)::mem::replace$")
+def m_mem_replace(ex, a, callee, canon):
+    p = _slot(a[0])
+    old = p.get()
+    p.set(a[1])
+    return old
+
+
+@model(r"^(std|core)::mem::swap$")
+def m_mem_swap(ex, a, callee, canon):
+    p, q = _slot(a[0]), _slot(a[1])
+    x, y = p.get(), q.get()
+    p.set(y)
+    q.set(x)
+    return UNIT
+
+
+@model(r"^Option::take$")
+def m_option_take(ex, a, callee, canon):
+    p = _slot(a[0])
+    old = p.get()
+    p.set(NONE())
+    return old
+
+
+@model(r"^core::num::<impl (u8|u16|u32|u64|usize)>::saturating_add$")
+def m_saturating_add(ex, a, callee, canon):
+    x, y = a
+    n = x.t.size()
+    s = x.t + y.t
+    return Int(z3.If(z3.ULT(s, x.t), z3.BitVecVal((1 << n) - 1, n), s), x.ty)
+
+
+@model(r"^core::num::<impl (u8|u16|u32|u64|usize|i8|i16|i32|i64|isize)>::wrapping_(add|sub|mul)$")
+def m_wrapping(ex, a, callee, canon):
+    x, y = a
+    op = canon.rsplit("_", 1)[1]
+    return Int({"add": x.t + y.t, "sub": x.t - y.t, "mul": x.t * y.t}[op], x.ty)
+
+
+@model(r"^core::num::<impl (u8|u16|u32|u64|usize)>::overflowing_(add|sub)$")
+def m_overflowing(ex, a, callee, canon):
+    x, y = a
+    if canon.endswith("add"):
+        r = x.t + y.t
+        o = z3.ULT(r, x.t)
+    else:
+        r = x.t - y.t
+        o = z3.ULT(x.t, y.t)
+    return Struct("tuple", [Int(r, x.ty), Bool(o)])
+
+
+@model(r"^Vec::reserve$|^Vec::reserve_exact$|^Vec::shrink_to_fit$")
+def m_vec_reserve(ex, a, callee, canon):
+    return UNIT
+
+
+@model(r"^core::slice::<impl \[u8\]>::(first|split_first)$")
+def m_slice_first(ex, a, callee, canon):
+    items = ex.seq_items(ex.bytes_of(a[0]))
+    if items is None:
+        raise Unsupported("first element of a byte string of symbolic length")
+    if not items:
+        return NONE()
+    head = Ptr([Int(items[0], "u8")], 0)
+    if canon.endswith("split_first"):
+        return some(Struct("tuple", [head, Ptr([Bytes(seq_of(items[1:]))], 0)]))
+    return some(head)
+
+
+@model(r"^core::slice::<impl \[u8\]>::(starts_with|ends_with)$")
+def m_slice_starts_with(ex, a, callee, canon):
+    x, y = ex.seq_items(ex.bytes_of(a[0])), ex.seq_items(ex.bytes_of(a[1]))
+    if x is None or y is None:
+        raise Unsupported("starts_with / ends_with on byte strings of symbolic length")
+    if len(y) > len(x):
+        return Bool(False)
+    part = x[:len(y)] if canon.endswith("starts_with") else x[len(x) - len(y):]
+    return Bool(z3.And(*[p == q for p, q in zip(part, y)]) if y else z3.BoolVal(True))
+
+
+@model(r"^core::slice::<impl \[u8\]>::contains$")
+def m_slice_contains(ex, a, callee, canon):
+    x = ex.seq_items(ex.bytes_of(a[0]))
+    if x is None:
+        raise Unsupported("contains on a byte string of symbolic length")
+    v = deref(a[1])
+    return Bool(z3.Or(*[p == v.t for p in x]) if x else z3.BoolVal(False))
